@@ -36,7 +36,7 @@ func init() {
 		ID: "C17",
 		Explanation: "Decided: (R1) every store into a view's member table stores a Clone() or a state freshly built by the decoder, Snapshot clones members and vector; (R2) nothing reachable from the merge removes a member or replaces the member table; (R3) each member store in AddMember / merge is on the edge 'absent ∨ incoming.IsNewerThan(existing)' with existing looked up under the same key and the roles not swapped; " +
 			"(R4) Epoch, Timestamp and ProtocolVersion are assigned from the other view only on the edge other.F > own.F; (R5) inside the merge the version vector is assigned only from Merge(own, other) or PruneWithMax; (R6) every member store inside the merge sets changed=true on the same path, and the vector assignment is preceded by an Equal test whose not-equal edge sets it; the result is a monotone chain. " +
-			"(R7) IsNewerThan treats a missing state as older and lets a differing generation decide alone, with the greater generation newer. NOT decided: commutativity / associativity / idempotence of the produced membership, consistency of the clock/timestamp tie-breakers of IsNewerThan, the interaction of pruning with 'changed'.",
+			"(R7) IsNewerThan treats a missing state as older and lets a differing generation decide alone, with the greater generation newer. (R3, addition) the converse: once the lookup found an entry, every path to the next iteration or a return either performs the store or takes the false edge of incoming.IsNewerThan(existing) — no further condition (clock skew, local status, strategy) keeps a newer incarnation out. NOT decided: commutativity / associativity / idempotence of the produced membership, consistency of the clock/timestamp tie-breakers of IsNewerThan, the interaction of pruning with 'changed'.",
 		Rules: []Rule{
 			{ID: "C17.R1", Min: 4, Desc: "stored member states are clones", Fn: c17Clones},
 			{ID: "C17.R2", Min: 1, Desc: "merge never removes", Fn: c17NeverRemoves},
@@ -51,13 +51,14 @@ func init() {
 	})
 	register(&Property{
 		ID: "C18",
-		Explanation: "Convergence, exact membership and stability quantify over fault sequences, delivery orders and timer phases of a distributed run; no static argument in reach bounds them and they are NOT decided. One structural necessary condition is decided: (R1) the leader is a deterministic function of the membership view — the leader computation reaches no nondeterminism source (random numbers, clocks, package-level mutable state), reads only member address and status, sorts (or min-reduces) what it collects from the map before indexing it, and the publisher derives IAmLeader from that value only. " +
+		Explanation: "Convergence, exact membership and stability quantify over fault sequences, delivery orders and timer phases of a distributed run; no static argument in reach bounds them and they are (R2, addition) the table the suppression predicate consults is written only with vectors that arrived in a message, never with the node's own vector after a send; (R6) in the join attempt every failure to ask a seed (time-outs included) is assigned to the error the attempt finally returns, so an attempt in which no seed answered is never reported as success and the retry timer is re-armed. NOT decided. One structural necessary condition is decided: (R1) the leader is a deterministic function of the membership view — the leader computation reaches no nondeterminism source (random numbers, clocks, package-level mutable state), reads only member address and status, sorts (or min-reduces) what it collects from the map before indexing it, and the publisher derives IAmLeader from that value only. " +
 			"(R2) the gossip suppression predicate answers 'send' whenever the peer's vector is unknown or the own vector is After / Concurrent with respect to it, and 'skip' only when it is Before or Equal (truth table of the predicate over its atoms). (R3) the generation bump of a re-joining node reads the previous incarnation from the seed's reply (directly, or from the own view after merging the reply). (R4) the leader publisher computes the leader on every call (only nil-context / nil-view / nil-stream edges return before it): views change without the version vector moving (a suspected member revived by gossip), so caching on the vector leaves two self-proclaimed leaders; (R5) the target selector ranges over the configured seed list itself on every path — never over a value that some path replaced by a constant: gossip to non-member seeds is the only way two disjoint islands find each other. Any other mutation in join, target selection or failure detection is NOT detected.",
 		Rules: []Rule{
 			{ID: "C18.R1", Min: 4, Desc: "leader is a deterministic function of the view", Fn: c18Leader},
 			{ID: "C18.R2", Min: 6, Desc: "gossip is suppressed only towards peers known to be at least as new", Fn: c18Suppression},
 			{ID: "C18.R4", Min: 1, Desc: "the leader is re-evaluated on every call of the publisher", Fn: c18AlwaysEvaluates},
 			{ID: "C18.R5", Min: 1, Desc: "configured seeds stay gossip candidates whatever the view holds", Fn: c18SeedsAlwaysCandidates},
+			{ID: "C18.R6", Min: 1, Desc: "a join attempt in which a seed could not be asked is reported as failed (so the retry timer is re-armed)", Fn: c18JoinReportsFailure},
 			{ID: "C18.R3", Min: 1, Desc: "restart generation decided against the merged reply", Fn: c18RestartGeneration},
 		},
 	})
@@ -1422,6 +1423,49 @@ func c18Suppression(p *Program, r *Report) {
 			}
 		}
 	}
+	// "known to be at least as new" must be knowledge, not hope: the table the predicate consults is written only with vectors
+	// that arrived in a message (rooted in a parameter other than the receiver) — never with the node's own vector after a
+	// send, which would record a delivery that may not have happened and silence anti-entropy towards that peer for good
+	var table *types.Var
+	for _, b := range fn.Blocks {
+		for _, in := range b.Instrs {
+			if lk, ok := in.(*ssa.Lookup); ok {
+				if f, _ := fieldLoad(strip(lk.X)); f != nil {
+					if m, isM := f.Type().Underlying().(*types.Map); isM && namedOf(m.Elem()) == vv {
+						table = f
+					}
+				}
+			}
+		}
+	}
+	if table == nil {
+		r.Unresolved("peer-vector table consulted by the suppression predicate")
+		return
+	}
+	nw := 0
+	for _, a := range p.fieldAccesses(map[*types.Var]bool{table: true}) {
+		mu, isMU := a.In.(*ssa.MapUpdate)
+		if !isMU || a.Fresh {
+			continue
+		}
+		nw++
+		recv := ""
+		if len(a.Fn.Params) > 0 && a.Fn.Signature.Recv() != nil {
+			recv = "param:" + a.Fn.Params[0].Name()
+		}
+		o := p.origins(mu.Value)
+		ok := len(o) > 0
+		for _, s := range o {
+			i := strings.LastIndex(s, "param:")
+			if i < 0 || s[i:] == recv {
+				ok = false
+			}
+		}
+		r.Check(ok, "peer vector recorded in "+fnName(a.Fn), mu.Pos(), "the recorded vector comes from a received message ("+strings.Join(o, " | ")+"), not from the node's own state")
+	}
+	if nw == 0 {
+		r.Unresolved("no store into the peer-vector table")
+	}
 }
 
 // ---- round-2 rules ---------------------------------------------------------------------------
@@ -1748,7 +1792,6 @@ func isStringSlice(t types.Type) bool {
 	return ok && b.Kind() == types.String
 }
 
-
 // anyOf: the two node sets intersect.
 func anyOf(a, b map[int]bool) bool {
 	for n := range b {
@@ -1757,4 +1800,110 @@ func anyOf(a, b map[int]bool) bool {
 		}
 	}
 	return false
+}
+
+// c18JoinReportsFailure: "a node that joined is eventually known to all" starts with the node noticing that it has NOT joined:
+// the join attempt walks the seeds and returns the last error; its callers re-arm the retry timer only on a non-nil result.
+// Every failure to ask a seed (reference creation, the Ask itself — time-outs included) must therefore be recorded in the
+// value the attempt finally returns: from the err != nil edge of such a call, no path reaches the next iteration without
+// assigning that error to the returned variable.
+func c18JoinReportsFailure(p *Program, r *Report) {
+	errT := types.Universe.Lookup("error").Type()
+	n := 0
+	for _, fn := range p.Mod {
+		pk := fnPkg(fn)
+		if pk == nil || !strings.HasSuffix(pk.Path(), "/internal/cluster") || fn.Parent() != nil || len(fn.Blocks) == 0 {
+			continue
+		}
+		res := fn.Signature.Results()
+		if res.Len() != 1 || !types.Identical(res.At(0).Type(), errT) {
+			continue
+		}
+		asks := false
+		for _, b := range fn.Blocks {
+			for _, in := range b.Instrs {
+				if c := callOf(in); c != nil && c.IsInvoke() && c.Method.Name() == "Ask" {
+					asks = true
+				}
+			}
+		}
+		if !asks {
+			continue
+		}
+		g := p.ig(fn)
+		// the returned variable: phis reachable from the operands of the returns
+		chain := map[ssa.Value]bool{}
+		var collect func(v ssa.Value)
+		collect = func(v ssa.Value) {
+			if ph, ok := v.(*ssa.Phi); ok && !chain[v] {
+				chain[v] = true
+				for _, e := range ph.Edges {
+					collect(e)
+				}
+			}
+		}
+		for _, ex := range g.Exits {
+			collect(retOperand(g.Nodes[ex].(*ssa.Return), 0))
+		}
+		if len(chain) == 0 {
+			continue
+		}
+		// edges on which a fresh, possibly non-nil value enters the variable, keyed by that value
+		record := map[ssa.Value]map[edge]bool{}
+		for v := range chain {
+			ph := v.(*ssa.Phi)
+			blk := ph.Block()
+			for k, e := range ph.Edges {
+				if chain[e] || isNilConst(e) {
+					continue
+				}
+				pred := blk.Preds[k]
+				from := g.Idx[pred.Instrs[len(pred.Instrs)-1]]
+				for _, to := range g.Succ[from] {
+					if g.Nodes[to].Block() == blk {
+						if record[e] == nil {
+							record[e] = map[edge]bool{}
+						}
+						record[e][edge{from, to}] = true
+					}
+				}
+			}
+		}
+		// the end of an iteration: arrival at the loop header that carries the variable (the first node of a block holding one of
+		// its phis and having a back edge)
+		iterEnd := map[int]bool{}
+		for v := range chain {
+			blk := v.(*ssa.Phi).Block()
+			first := g.Idx[blk.Instrs[0]]
+			if g.ReachAfter(first, nil, nil)[first] {
+				iterEnd[first] = true
+			}
+		}
+		if len(iterEnd) == 0 {
+			continue
+		}
+		for _, ifi := range g.ifs() {
+			for _, outcome := range []bool{true, false} {
+				f, ok := condFact(ifi.Cond, outcome)
+				if !ok || !f.IsNil || f.Op != token.NEQ {
+					continue
+				}
+				ex, isEx := f.X.(*ssa.Extract)
+				if !isEx || !types.Identical(ex.Type(), errT) {
+					continue
+				}
+				if _, isCall := ex.Tuple.(*ssa.Call); !isCall {
+					continue
+				}
+				n++
+				e := g.branchEdge(ifi, outcome)
+				rec := record[ssa.Value(ex)]
+				lost := anyOf(g.Reach([]int{e.to}, nil, rec), iterEnd) || iterEnd[e.to]
+				r.Check(!lost, "failure of "+shortCallee(&ex.Tuple.(*ssa.Call).Call)+" is recorded in "+fnName(fn), ifi.Cond.Pos(), "from the err != nil edge every path to the next seed assigns this error to the variable the attempt finally returns: an attempt in which no seed could be asked is never reported as a success")
+			}
+		}
+	}
+	if n == 0 {
+		r.Unresolved("no join attempt (cluster routine returning an error that asks seeds in a loop)")
+	}
 }
